@@ -83,7 +83,7 @@ Proof.
   - assert (G : forall c0 tr0, rx_outcome buflen (snd (let '(flt, c1) := tick c0 in
                  if flt then run f c1 (h EBusy) (TIvFault call :: tr0) else run f c1 (k []) (TIv call :: tr0)))).
     { intros c0 tr0. destruct (tick c0) as [flt c1]. destruct flt; [apply IH; apply Hh|]. apply IH. apply Hk. intros segs Heq. discriminate. }
-    destruct call; try apply G.
+    destruct call; try apply G; try (apply IH; apply Hk; intros segs Heq; discriminate).
     destruct (_ || _); [cbn [snd]; constructor|]. apply G.
   - apply IH. apply Hk. intros segs Heq. discriminate.
   - apply IH. apply Hk. intros segs Heq. discriminate.
